@@ -110,8 +110,34 @@ fn big_file_with_ties() -> &'static str {
     Box::leak(t.into_boxed_str())
 }
 
+/// many import warnings (hash-ordered) + pairs of Errors sharing one start position
+fn ties_file(imports: usize, methods: usize) -> &'static str {
+    let mut t = String::from("package com.demo;\n");
+    for i in 0..imports {
+        t.push_str(&format!("import com.other.pkg{}.Unknown{};\n", i % 7, i));
+    }
+    t.push_str("interface Big {\n");
+    for i in 0..methods {
+        t.push_str(&format!("    oneway void m{i}(out int a{i}, inout long b{i});\n"));
+    }
+    t.push_str("}\n");
+    Box::leak(t.into_boxed_str())
+}
+
 fn projects() -> Vec<Project> {
     let mut v = base_projects();
+    for (name, i, m) in [
+        ("ties-40-imports-6-methods", 40usize, 6usize),
+        ("ties-25-imports-6-methods", 25, 6),
+        ("ties-40-imports-3-methods", 40, 3),
+        ("ties-64-imports-12-methods", 64, 12),
+    ] {
+        v.push(Project {
+            name,
+            files: vec![("obs", ties_file(i, m))],
+            dup_ids: vec![],
+        });
+    }
     v.push(Project {
         name: "big-file-with-position-ties",
         files: vec![("obs", big_file_with_ties())],
@@ -276,6 +302,8 @@ fn build_ops(p: &[(String, String)], order: &[usize], replaced: bool) -> Vec<(St
             ops.push((p[*i].0.clone(), "package zz; parcelable B {".to_string()));
             ops.push((p[*i].0.clone(), "package p; interface B { }".to_string()));
         }
+        // a validation in between (caches filled by validate() must not survive the replacements)
+        ops.push(("#validate".to_string(), String::new()));
     }
     for i in order {
         ops.push((p[*i].0.clone(), p[*i].1.clone()));
@@ -326,7 +354,11 @@ fn execute(ops: Vec<(String, String)>, base: u64, inner: usize) -> Result<Vec<Ru
         guarded(|| {
             let mut p: Parser<String> = Parser::new();
             for (id, text) in &ops {
-                p.add_content(id.clone(), text);
+                if id == "#validate" {
+                    let _ = p.validate();
+                } else {
+                    p.add_content(id.clone(), text);
+                }
             }
             let _ = aidl_parser::verif_hooks::take_orders();
             let mut runs = Vec::new();
@@ -656,7 +688,7 @@ pub fn run(tier: Tier, seed: u64) -> i32 {
     let multi = stats.states.load(std::sync::atomic::Ordering::Relaxed) > 1000;
     finish(
         &stats,
-        "15 projects built to collide (several diagnostics on one line, several unresolved / unused imports and forward declarations, two imports matching one name, a declaration conflicting with several imports, one key registered twice, files without a tree, recovered syntax errors after validation diagnostics) x insertion orders (all permutations up to the stated cap) x plain / replace histories x base keys of new threads x repeated validate() calls; hash seeds are owned through the getrandom shim and the sweep continues until every hash container of <= 4 elements has been observed (hook H3) in all its iteration orders at every site; all outputs of one project must be equal and every file's diagnostics ascending in (line, column); states = validate() calls compared; distinct_nontrivial = distinct iteration-order tuples observed",
+        "19 projects built to collide (several diagnostics on one line, several unresolved / unused imports and forward declarations, two imports matching one name, a declaration conflicting with several imports, one key registered twice, files without a tree, recovered syntax errors after validation diagnostics) x insertion orders (all permutations up to the stated cap) x plain / replace histories x base keys of new threads x repeated validate() calls; hash seeds are owned through the getrandom shim and the sweep continues until every hash container of <= 4 elements has been observed (hook H3) in all its iteration orders at every site; all outputs of one project must be equal and every file's diagnostics ascending in (line, column); states = validate() calls compared; distinct_nontrivial = distinct iteration-order tuples observed",
         &[
             "std's RandomState takes its keys from getrandom(2) once per thread and increments them per instance; the LD_PRELOAD shim makes them a function of the harness-chosen base key (self-tested at start-up)",
             "hook H3 only observes the order of the container the library is about to iterate",
